@@ -439,44 +439,88 @@ func (a Float) M__round__(digitsObj Object) (Object, error) {
 
 // Rich comparison
 
+// Compares a with other exactly, returning -1, 0 or +1
+//
+// ok is false if other isn't a number and unordered is true if a is a
+// nan.  ints of any size are compared by value, not by converting
+// them to a float first which loses precision.
+func floatCompare(a Float, other Object) (cmp int, unordered bool, ok bool) {
+	var z *big.Int
+	switch b := other.(type) {
+	case Float:
+		switch {
+		case math.IsNaN(float64(a)) || math.IsNaN(float64(b)):
+			return 0, true, true
+		case a < b:
+			return -1, false, true
+		case a > b:
+			return 1, false, true
+		}
+		return 0, false, true
+	case Int:
+		z = big.NewInt(int64(b))
+	case *BigInt:
+		z = (*big.Int)(b)
+	case Bool:
+		z = big.NewInt(0)
+		if b {
+			z.SetInt64(1)
+		}
+	default:
+		return 0, false, false
+	}
+	switch {
+	case math.IsNaN(float64(a)):
+		return 0, true, true
+	case math.IsInf(float64(a), 1):
+		return 1, false, true
+	case math.IsInf(float64(a), -1):
+		return -1, false, true
+	}
+	// Both conversions are exact
+	x := new(big.Float).SetFloat64(float64(a))
+	y := new(big.Float).SetInt(z)
+	return x.Cmp(y), false, true
+}
+
 func (a Float) M__lt__(other Object) (Object, error) {
-	if b, ok := convertToFloat(other); ok {
-		return NewBool(a < b), nil
+	if cmp, unordered, ok := floatCompare(a, other); ok {
+		return NewBool(!unordered && cmp < 0), nil
 	}
 	return NotImplemented, nil
 }
 
 func (a Float) M__le__(other Object) (Object, error) {
-	if b, ok := convertToFloat(other); ok {
-		return NewBool(a <= b), nil
+	if cmp, unordered, ok := floatCompare(a, other); ok {
+		return NewBool(!unordered && cmp <= 0), nil
 	}
 	return NotImplemented, nil
 }
 
 func (a Float) M__eq__(other Object) (Object, error) {
-	if b, ok := convertToFloat(other); ok {
-		return NewBool(a == b), nil
+	if cmp, unordered, ok := floatCompare(a, other); ok {
+		return NewBool(!unordered && cmp == 0), nil
 	}
 	return NotImplemented, nil
 }
 
 func (a Float) M__ne__(other Object) (Object, error) {
-	if b, ok := convertToFloat(other); ok {
-		return NewBool(a != b), nil
+	if cmp, unordered, ok := floatCompare(a, other); ok {
+		return NewBool(unordered || cmp != 0), nil
 	}
 	return NotImplemented, nil
 }
 
 func (a Float) M__gt__(other Object) (Object, error) {
-	if b, ok := convertToFloat(other); ok {
-		return NewBool(a > b), nil
+	if cmp, unordered, ok := floatCompare(a, other); ok {
+		return NewBool(!unordered && cmp > 0), nil
 	}
 	return NotImplemented, nil
 }
 
 func (a Float) M__ge__(other Object) (Object, error) {
-	if b, ok := convertToFloat(other); ok {
-		return NewBool(a >= b), nil
+	if cmp, unordered, ok := floatCompare(a, other); ok {
+		return NewBool(!unordered && cmp >= 0), nil
 	}
 	return NotImplemented, nil
 }
